@@ -449,9 +449,13 @@ class ExcelCompiler:
 
         cell_or_range = self.cell_map[address]
 
-        if cell_or_range.value != value:  # pragma: no branch
-            # need to be able to 'set' an empty cell, set to not None
-            cell_or_range.value = value
+        if (cell_or_range.value != value or
+                type(cell_or_range.value) is not type(value)):  # pragma: no branch
+            # 0 and FALSE, 1 and TRUE compare equal but are different cell values
+
+            # need to be able to 'set' an empty cell, and to empty a cell:
+            # the reset below starts from a cell that is not None
+            cell_or_range.value = 0 if value is None else value
 
             # reset the node + its dependencies
             if not self.cycles:
